@@ -35,7 +35,9 @@ def prepare(params: dict):
     execute(spec, True)
 
 
-def execute(spec: dict, compiled: bool) -> Optional[List[dict]]:
+def execute(spec: dict, compiled: bool, alloc=None) -> Optional[List[dict]]:
+    if alloc is not None and not compiled:
+        spec = dict(spec, alloc=alloc)
     r = None
     for attempt in range(2):  # a history takes seconds; no answer within TIMEOUT twice in a row is a hang
         try:
@@ -160,8 +162,13 @@ def run(ch: Choices, focus: str = "C15", params: Optional[dict] = None) -> dict:
     spec = {"models": models, "ops": ops}
     short = [{k: v for k, v in o.items() if k != "cfg"} | ({"cfg": [o["cfg"]["cons"], o["cfg"]["var_h"], o["cfg"]["dom_h"]]} if "cfg" in o else {}) for o in ops]
     ctx = f"[models {[gen.render_model(dict(m)) for m in models]} history {short}] "
-    interp = execute(spec, False)
-    interp2 = execute(spec, False)
+    # the three interpreted executions (run, rerun, clean rooms) get three different contents of never-written memory
+    pats = [0xFF, 0xA5, 0x01, ["random", ch.choose(1 << 16, "alloc.seed")]]
+    k = ch.choose(len(pats), "alloc")
+    alloc1, alloc2, alloc3 = pats[k], [0x00, ["random", 77], 0xFF, 0x00][k], [0x80, 0x00, 0x00, 0xA5][k]
+    out["faults"]["dirty-allocator"] += 3
+    interp = execute(spec, False, alloc1)
+    interp2 = execute(spec, False, alloc2)
     comp = execute(spec, True)
     out["probes"]["histories"] += 1
     out["probes"]["operations"] += len(ops)
@@ -174,7 +181,7 @@ def run(ch: Choices, focus: str = "C15", params: Optional[dict] = None) -> dict:
     else:
         if interp != interp2:
             j = next((i for i, (a, b) in enumerate(zip(interp, interp2)) if a != b), None)
-            viol("run-differs-from-rerun", ctx + f"operation {j} {short[j] if j is not None and j < len(short) else ''}: first run {str(interp[j])[:300]} second run {str(interp2[j])[:300]}")
+            viol("run-differs-from-rerun", ctx + f"operation {j} {short[j] if j is not None and j < len(short) else ''}: first run {str(interp[j])[:300]} second run {str(interp2[j])[:300]} (the two runs differ only in the contents of never-written memory handed out by np.empty: {alloc1} / {alloc2})")
         if interp != comp:
             j = next((i for i, (a, b) in enumerate(zip(interp, comp)) if a != b), min(len(interp), len(comp)))
             a = interp[j] if j < len(interp) else None
@@ -193,7 +200,7 @@ def run(ch: Choices, focus: str = "C15", params: Optional[dict] = None) -> dict:
                 picked.append(pool.pop(ch.choose(len(pool), f"cleanroom{t}")))
         for i in sorted(picked):
             chain = clean_room_chain(ops, i)
-            cr = execute({"models": models, "ops": chain}, False)
+            cr = execute({"models": models, "ops": chain}, False, alloc3)
             out["probes"]["clean_room_comparisons"] += 1
             if cr is None:
                 viol("clean-room-hangs", ctx + f"clean-room execution of operation {i} does not finish")
